@@ -49,6 +49,67 @@ def idx_forms(rng, hi):
     return forms
 
 
+def select_and_lazy_section(ctx, viol):
+    """select() through random views (labels, unsorted labels, boolean masks over the view, sorted=) against
+    labels computed here, and lazy [] indexing / iteration after scope switches against the method form"""
+    import numpy as np
+    import simlib
+    rng = ctx.rng
+    n_checks = 0
+    for name, m, _drop in fixtures(rng):
+        n = len(m.nodes)
+        for _ in range(ctx.budget(6, 40)):
+            rows = sorted(rng.sample(range(n), rng.randint(1, n)))
+            with simlib.quiet():
+                view = m.select(nodes=rows) if rng.random() < 0.8 else m
+            labels = list(view.nodes.index)
+            how = rng.choice(["mask", "mask_list", "labels", "unsorted", "unsorted_sorted"])
+            try:
+                with simlib.quiet():
+                    if how in ("mask", "mask_list"):
+                        mask = [rng.random() < 0.5 for _ in labels]
+                        if not any(mask):
+                            mask[rng.randrange(len(mask))] = True
+                        want = [l for l, b in zip(labels, mask) if b]
+                        got = list(view.select(np.asarray(mask) if how == "mask" else mask).nodes.index)
+                    else:
+                        pick = rng.sample(labels, rng.randint(1, len(labels)))
+                        if how == "labels":
+                            pick = sorted(pick)
+                        want = sorted(pick) if how != "unsorted" else pick
+                        got = list(view.select(nodes=pick, sorted=(how == "unsorted_sorted")).nodes.index)
+                n_checks += 1
+                if got != want:
+                    viol.append({"kind": "select() through a view does not select the denoted compartments", "fixture": name, "rows_in_view": labels, "how": how,
+                                 "got": got, "expected": want, "finding_class": None})
+            except Exception as ex:
+                viol.append({"kind": "select() through a view raised", "fixture": name, "rows_in_view": labels, "how": how, "error": repr(ex)[:200], "finding_class": None})
+        # lazy indexing after scope switches
+        if name == "network":
+            for _ in range(ctx.budget(4, 30)):
+                sc = rng.choice(["global", "local"])
+                ci = rng.randrange(3)
+                try:
+                    with simlib.quiet():
+                        base = m.scope(sc)
+                        a = list(base[ci].nodes.index)
+                        b = list(base.cell(ci).nodes.index)
+                        cv = m.cell(ci).scope(sc)
+                        nb = len(set(cv.nodes["global_branch_index"]))
+                        bi = rng.randrange(nb) if sc == "local" else int(rng.choice(sorted(set(cv.nodes["global_branch_index"]))))
+                        a2 = list(cv[bi].nodes.index)
+                        b2 = list(cv.branch(bi).nodes.index)
+                        it = [list(x.nodes.index) for x in cv]
+                        it2 = [list(x.nodes.index) for x in cv.branches]
+                    n_checks += 3
+                    if a != b or a2 != b2 or it != it2:
+                        viol.append({"kind": "lazy [] indexing / iteration after a scope switch disagrees with the method form", "scope": sc, "cell": ci, "branch": bi,
+                                     "lazy": [a, a2, it], "method": [b, b2, it2], "finding_class": None})
+                except Exception as ex:
+                    viol.append({"kind": "lazy [] indexing / iteration after a scope switch raised", "scope": sc, "cell": ci, "error": repr(ex)[:200], "finding_class": None})
+    return n_checks
+
+
 def run(ctx):
     import numpy as np
     import jaxley as jx
@@ -339,6 +400,11 @@ def run(ctx):
                 viol.append(dict(desc, kind="local indices are not the dense ranks within each parent", got=loc, model=ml))
     except Exception as ex:
         viol.append({"kind": "correspondence could not be evaluated", "error": repr(ex)[:800], "no_failing_input_found": True})
+    try:
+        evals += select_and_lazy_section(ctx, viol)
+    except Exception as ex:
+        import traceback
+        viol.append({"kind": "select / lazy section raised", "error": repr(ex)[:300], "trace": traceback.format_exc()[-500:]})
     import regress
     evals += regress.run("C11", viol)
     for v in viol:
